@@ -31,11 +31,15 @@ class WorkflowContext:
     @property
     def deterministic(self) -> DeterministicExecutor:
         """Get the deterministic executor for this workflow context."""
-        if self._deterministic is None:
-            self._deterministic = DeterministicExecutor(
-                self.task.invocation.workflow, self.task.app
-            )
-        return self._deterministic
+        # One executor per executing invocation object, not per Task: the Task object is shared
+        # by every invocation of the task in the process (other workflows, retries, concurrent
+        # threads), and each body execution must start counting its operations from the start
+        invocation = self.task.invocation
+        executor = getattr(invocation, "_wf_deterministic", None)
+        if executor is None:
+            executor = DeterministicExecutor(invocation.workflow, self.task.app)
+            invocation._wf_deterministic = executor  # type: ignore[attr-defined]
+        return executor
 
     @property
     def app(self) -> Pynenc:
